@@ -2515,9 +2515,16 @@ func (db *DB) ApplyLTXNoLock(path string, fatalOnError bool) (retErr error) {
 			return fmt.Errorf("decode ltx page[%d]: %w", i, err)
 		}
 
-		// Update the mode if this is the first page and the write/read versions as set to WAL (2).
-		if phdr.Pgno == 1 && pageBuf[18] == 2 && pageBuf[19] == 2 {
-			dbMode = DBModeWAL
+		// Update the mode from the write/read versions in the first page: WAL (2)
+		// or rollback journal. A replicated switch from WAL back to a rollback
+		// journal must be tracked too; otherwise this node keeps treating the
+		// database as WAL and, once writable, does not track dirty pages.
+		if phdr.Pgno == 1 {
+			if pageBuf[18] == 2 && pageBuf[19] == 2 {
+				dbMode = DBModeWAL
+			} else {
+				dbMode = DBModeRollback
+			}
 		}
 
 		// Copy to database file.
